@@ -13,14 +13,16 @@ PROPERTY = "C32"
 LEVEL = "exploration"
 BUDGET = {"quick": (1200, 150), "thorough": (40000, 1500)}
 RULE = ("two scenario families. (atoms) a seeded ASE structure (orthogonal / hexagonal / monoclinic-like cells, atoms outside the cell, "
-        "tiny off-diagonal cell entries, mixed pbc) passed to orthogonalize_cell, standardize_cell, Potential (+ eager / lazy build, "
+        "tiny off-diagonal cell entries, mixed pbc) passed to orthogonalize_cell, standardize_cell, Potential (+ eager / lazy build, also as "
+        "a member of a list / AtomsEnsemble, "
         "lazy graph computed twice by SimScheduler in any order), FrozenPhonons (+ iteration), StructureFactor, BlochWaves; snapshot of "
         "positions, cell, numbers, pbc and per-atom arrays before, compared bitwise after. (measurement) a seeded Images / "
         "DiffractionPatterns / PolarMeasurements / RealSpaceLineProfiles (real or complex, 0-2 ensemble axes, eager or lazy over a "
         "caller-owned ndarray) and one method returning a new measurement (real, imag, phase, abs, intensity, interpolate, crop, "
         "gaussian_filter, tile, diffractograms, poisson_noise, integrate_radial, block_direct, bandlimit, ...); snapshot of the "
         "receiver's array bytes, the caller's ndarray, metadata and axes; lazy results are computed by SimScheduler (reorder / "
-        "interleave / recompute) twice. distinct = (scenario hash, schedule hash); non-trivial = the call returned without raising")
+        "interleave / recompute) twice -- on their own, together with the receiver in one graph, or after the caller persisted the "
+        "receiver's chunks (which must still hold their values afterwards). distinct = (scenario hash, schedule hash); non-trivial = the call returned without raising")
 ASSUMPTIONS = ["a call that raises is still required to leave its inputs unchanged",
                "metadata compared by deep equality; arrays bitwise"]
 TECHNIQUE = "deterministic simulation: before/after snapshots of caller-owned inputs around calls and simulated-schedule computes"
@@ -45,7 +47,7 @@ def draw_atoms_case(ch):
     return {"family": "atoms", "cell_kind": cell_kind, "n": n, "seed": ch.subseed("atoms"), "outside": ch.bool(0.5, "outside"),
             "pbc": ch.pick([True, False, "mixed"], "pbc"), "extra_array": ch.bool(0.3, "extra-array"),
             "func": ch.pick(["orthogonalize_cell", "standardize_cell", "Potential", "Potential-lazy", "FrozenPhonons", "StructureFactor",
-                             "BlochWaves"], "func")}
+                             "BlochWaves", "Potential-list", "AtomsEnsemble"], "func")}
 
 
 def make_atoms(c):
@@ -122,6 +124,14 @@ def run_atoms(run, c):
             sim = run.add_sim(Sim(ch, draw_sim_config(ch, light=True)))
             with sim:
                 sim.compute(m)
+        elif f in ("Potential-list", "AtomsEnsemble"):
+            # the caller's Atoms objects as static ensemble members
+            src = [atoms, atoms] if f == "Potential-list" else abtem.AtomsEnsemble([atoms])
+            pot = abtem.Potential(src, gpts=(12, 16), slice_thickness=2.0)
+            pot.build(lazy=False)
+            sim = run.add_sim(Sim(ch, draw_sim_config(ch, light=True)))
+            with sim:
+                sim.compute(pot.build(lazy=True))
         elif f == "FrozenPhonons":
             fp = abtem.FrozenPhonons(atoms, 3, 0.1, seed=4)
             list(fp)
@@ -173,7 +183,7 @@ def draw_meas_case(ch):
     if method in ("gaussian_source_size", "integrated_center_of_mass", "tile_scan"):
         naxes = 2
     ens = [ch.range(2, 4, "axis-len") for _ in range(naxes)]
-    return {"family": "measurement", "type": t, "method": method, "complex": complex_needed or ch.bool(0.15, "complex"),
+    return {"family": "measurement", "type": t, "method": method, "complex": complex_needed or ch.bool(0.5 if method.startswith(("interpolate", "crop", "tile", "gaussian")) else 0.15, "complex"),
             "ensemble": ens, "seed": ch.subseed("data"), "lazy": ch.pick(["eager", "lazy", "lazy-chunked"], "laziness"),
             "precision": "float64" if ch.bool(0.4, "float64") else "float32"}
 
@@ -271,7 +281,16 @@ def run_measurement(run, c):
     meta0 = copy.deepcopy(dict(m.metadata))
     axes0 = [oracle.axis_record(a) for a in m.axes_metadata]
     raised = None
+    seen_receiver = []
+    # how a lazy receiver's chunks meet the derived result: computed on their own; in ONE graph with the result (any order); or
+    # persisted by the caller before the call and read again afterwards
+    mode = ch.pick(["plain", "joint", "persisted"], "receiver-mode") if c["lazy"] != "eager" else "plain"
+    c["receiver_mode"] = mode
     try:
+        import dask
+
+        if mode == "persisted":
+            m._array = m.array.persist(scheduler="synchronous")
         out = call_method(m, c)
         outs = out if isinstance(out, (list, tuple)) else [out]
         for o in outs:
@@ -279,7 +298,13 @@ def run_measurement(run, c):
                 for _ in range(2):
                     sim = run.add_sim(Sim(ch, draw_sim_config(ch, light=True)))
                     with sim:
-                        o.array.compute(optimize_graph=sim.optimize_graph)
+                        if mode == "joint" and m.is_lazy:
+                            got = dask.compute(m.array, o.array, optimize_graph=sim.optimize_graph)[0]
+                            seen_receiver.append(np.asarray(got))
+                        else:
+                            o.array.compute(optimize_graph=sim.optimize_graph)
+        if mode == "persisted" and m.is_lazy:
+            seen_receiver.append(np.asarray(m.array.compute(scheduler="synchronous")))
     except (HarnessError, InjectedCrash):
         raise
     except Exception as e:  # noqa: BLE001
@@ -290,6 +315,14 @@ def run_measurement(run, c):
     if not np.array_equal(arr, arr0):
         run.violate("receiver-unchanged", {**sigb, "changed": "caller-ndarray"}, f"{c['type']}.{c['method']} modified the caller-owned ndarray "
                     f"behind the receiver (max diff {np.abs(arr.astype(complex) - arr0.astype(complex)).max():.3g})")
+    for got in seen_receiver:
+        if got.shape != arr0.shape or not np.array_equal(got, arr0):
+            run.violate("receiver-unchanged", {**sigb, "changed": "lazy-chunks", "receiver_mode": mode},
+                        f"{c['type']}.{c['method']}: the lazy receiver, {'computed together with the result' if mode == 'joint' else 'persisted before the call and read after the result was computed'}, "
+                        f"no longer holds its values (max diff {np.abs(got.astype(complex) - arr0.astype(complex)).max() if got.shape == arr0.shape else 'shape'})")
+            break
+    if seen_receiver:
+        run.note("reach_receiver_" + mode)
     cur = m.array if not m.is_lazy else None
     if cur is not None and not np.array_equal(np.asarray(cur), arr0):
         run.violate("receiver-unchanged", {**sigb, "changed": "array"}, f"{c['type']}.{c['method']} changed the receiver's array")
